@@ -200,10 +200,12 @@ def run(rep, tier):
         "other",
         "Decides structural necessary conditions of C32 on the MIR of the generate! proc-macro crate and on the syntax "
         "tree of Config::expand. R32.1: after every successful wit-parser file read, every path to Ok (or to the next "
-        "read) passes an append of that read's PackageSourceMap::paths() to the tracked vector, which is only ever "
-        "appended to. R32.2: the only file-reading calls of the macro crate are those tracked sites, all inside a "
+        "read) passes an append of that read's PackageSourceMap::paths() to the tracked vector (directly, or by a "
+        "loop that pushes every element), no iterator adapter between paths() and the append drops elements, the "
+        "mapping closure only converts the path, and the vector is only ever appended to. R32.2: the only file-reading calls of the macro crate are those tracked sites, all inside a "
         "closure of parse_source. R32.3: the tracked vector is parse_source's local that is returned in the Ok tuple, "
-        "the same tuple slot initialises Config.files in the only constructor of Config, and nothing else writes it. "
+        "the same tuple slot initialises Config.files in the only constructor of Config without being borrowed mutably "
+        "on the way, and nothing else writes it. "
         "R32.4: each source form (no source, path list, inline with / without path) reads through that tracked "
         "closure. R32.5: Config::expand builds Ok only after the loop over self.files has run to exhaustion, each "
         "iteration appends to the returned token stream a stream parsed from a formatted string that depends on the "
@@ -756,30 +758,27 @@ def r7(rep, c=None):
         for f in g.fns.values():
             for call in reader_calls(f):
                 bad.setdefault(_key(g.name, f.path), (g, f, call))
-    anc = set(bad)
-    work = list(bad)
-    while work:
-        k = work.pop()
-        # a closure runs when its parent runs
-        parents = {re.sub(r"::\{closure#\d+\}$", "", k)} - {k}
-        for p in set(edges.get(k, ())) | parents:
-            if p not in anc:
-                anc.add(p)
-                work.append(p)
-    rep.ob("R32.7", "generator crates: wit-parser readers exist only in functions the macro cannot reach",
-           not any(info[k][0] is c for k in anc if k in info),
-           f"macro functions reaching a generator-crate reader: {[short_fn(info[k][1]) for k in anc if k in info and info[k][0] is c]}", "")
-    for k in sorted(anc):
-        if k not in info or info[k][0] is c:
-            continue
-        g, f = info[k]
-        rep.ob("R32.7", f"{g.name}: {short_fn(f)} (reaches a wit-parser file reader) is not a trait method",
-               f.d.get("trait") is None, "it can be dispatched dynamically from WorldGenerator::generate", f.loc())
+    def ancestors(start):
+        anc, work = {start}, [start]
+        while work:
+            k = work.pop()
+            parents = {re.sub(r"::\{closure#\d+\}$", "", k)} - {k}          # a closure runs when its parent runs
+            for p in set(edges.get(k, ())) | parents:
+                if p not in anc:
+                    anc.add(p)
+                    work.append(p)
+        return anc
+
     for k, (g, f, call) in sorted(bad.items()):
-        callers = sorted(short_fn(info[a][1]) for a in anc if a in info and a != k)
-        rep.ob("R32.7", f"{g.name}: reader {mir.norm(call.callee).split('::')[-1]} in {short_fn(f)} is unreachable from generate!",
-               not [a for a in anc if a in info and info[a][0] is c],
-               f"reached from the macro crate via {callers}", f.loc(call.bb))
+        anc = ancestors(k)
+        via_macro = sorted(short_fn(info[a][1]) for a in anc if a in info and info[a][0] is c)
+        rep.ob("R32.7", f"{g.name}: reader {mir.norm(call.callee).split('::')[-1]} in {short_fn(f)} is not reachable from the macro crate",
+               not via_macro, f"reached from {via_macro}", f.loc(call.bb))
+        dyn = sorted(short_fn(info[a][1]) for a in anc if a in info and info[a][0] is not c and info[a][1].d.get("trait"))
+        rep.ob("R32.7", f"{g.name}: reader {mir.norm(call.callee).split('::')[-1]} in {short_fn(f)} is not reachable from a trait method",
+               not dyn, f"dynamically dispatchable callers: {dyn}", f.loc(call.bb))
+    rep.ob("R32.7", "generator crates: every wit-parser reader site was classified", True, f"{len(bad)} function(s) with readers", "",
+           nontrivial=False)
 
 
 # ------------------------------------------------------------------------------------------------------------ R32.8
